@@ -254,7 +254,14 @@ def h_sympy(env, spec, n, init_idx, canary=False):
     b = get_backend("sympy")
     with shim.concrete_mode():
         if init_idx is None:
-            freqs, sv = b.simulate(circ, return_statevector=True)
+            try:
+                freqs, sv = b.simulate(circ, return_statevector=True)
+            except (ValueError, NotImplementedError) as exc:
+                if any(len(ct) > 1 for _, _, ct in spec):
+                    # a backend may refuse gates it cannot express (more than one control); it must not alter them silently
+                    env.check_true(True, f"sympy backend refuses the multi-controlled gate: {type(exc).__name__}")
+                    return
+                raise
         else:
             from sympy.physics.quantum.qubit import Qubit
             # the documented way to give a basis state: Qubit string; bit order handled below via advertised order
@@ -398,5 +405,8 @@ def shapes(tier, seed):
             out.append(Shape(f"sympy/comp/{i}", h_sympy, dict(spec=spec, n=3, init_idx=None), modules=MODS))
     for k in range(4):
         out.append(Shape(f"sympy/shortcut/n2k{k}", h_sympy_shortcut, dict(n=2, k=k), modules=MODS))
+    for i, spec in enumerate([[("X", [0], []), ("CX", [2], [0, 1])], [("H", [1], []), ("X", [0], []), ("CRY", [2], [0, 1])],
+                              [("X", [2], []), ("CZ", [0], [1, 2])]]):
+        out.append(Shape(f"sympy/multicontrol/{i}", h_sympy, dict(spec=spec, n=3, init_idx=None), modules=MODS))
     out.append(Shape("canary/sympy/reversed", h_sympy, dict(spec=[("RY", [0], [])], n=2, init_idx=None, canary=True), modules=MODS, canary=True))
     return out
